@@ -82,6 +82,7 @@ static void* ticker(void* p) {
   int rounds = 0;
   while (!all_sleepers_done() && rounds++ < 100000) {
     ticker_ran();
+    rt_force_balance();  // take the 1-in-1024 path of fiber_manager_yield on every round
     fiber_yield();
   }
   return 0;
